@@ -866,6 +866,7 @@ func runCase(t *rapid.T, ec *ev.Case) bool {
 		case "idxdel":
 			// DeleteCheckpointsForChain iterates then deletes: only while the top-level indexer write set is empty (see assumptions)
 			if m.iv.Overlays[0].Len() != 0 {
+				ec.Class("skipped:indexer-iteration-while-top-level-indexer-writes-pending")
 				continue
 			}
 			chain := uint64(rapid.IntRange(1, 2).Draw(t, "chain"))
@@ -882,6 +883,7 @@ func runCase(t *rapid.T, ec *ev.Case) bool {
 			m.checkIdxGet(fmt.Sprintf("step %d", step), m.cur(), m.iv, chain, h)
 		case "idxiter":
 			if m.iv.Overlays[0].Len() != 0 {
+				ec.Class("skipped:indexer-iteration-while-top-level-indexer-writes-pending")
 				continue
 			}
 			chain := uint64(rapid.IntRange(1, 2).Draw(t, "chain"))
